@@ -693,3 +693,200 @@ Lemma old_code_loses :
 Proof. split; [reflexivity|]. split; [reflexivity|]. vm_compute. intros H. discriminate H. Qed.
 Lemma old_code_loses_values : added old_dup_state = [1%N; 2%N; 3%N] /\ out old_dup_state = [1%N].
 Proof. split; reflexivity. Qed.
+
+(* ------------------------------------------------------------------ fetch errors: every failed batch reports exactly once *)
+From Coq Require Import Permutation.
+
+Section ErrorProofs.
+Context {T R : Type}.
+Variable fetchx : list T -> outcome R.
+Variable p : rparams.
+
+Notation rstate := (rstate T R).
+Notation pc := (pc T).
+Notation fetch := (fetch_of fetchx).
+
+Definition fetching (fs : list (fetcher T)) : list (list T) :=
+  flat_map (fun f => match f_stage f with Fetching => [f_ev f] | Added => [] end) fs.
+Definition crit_ev (c : pc) : list (list T) :=
+  match c with PReserve ev | PRead ev | PInc ev _ | PWrite ev _ _ => [ev] | _ => [] end.
+
+(* every batch handed out is: completed, or being fetched, or with a flusher that has not started its fetch yet *)
+Definition PInvC (a t : pc) (s : rstate) (done : list (list T)) : Prop :=
+  Permutation (flushed s) (done ++ fetching (fetchers s) ++ crit_ev a ++ crit_ev t).
+
+Lemma perm_add : forall {A} (fl D F O : list A) ev,
+  Permutation fl (D ++ F ++ O) -> Permutation (fl ++ [ev]) (D ++ F ++ [ev] ++ O).
+Proof.
+  intros A fl D F O ev H. apply Permutation_trans with (ev :: fl).
+  - apply Permutation_sym, Permutation_cons_append.
+  - rewrite (app_assoc D F). cbn [app]. apply Permutation_cons_app. rewrite <- app_assoc. exact H.
+Qed.
+
+Lemma perm_move : forall {A} (D F1 F2 C : list A) ev,
+  Permutation (D ++ (F1 ++ ev :: F2) ++ C) ((D ++ [ev]) ++ (F1 ++ F2) ++ C).
+Proof.
+  intros A D F1 F2 C ev. rewrite <- (app_assoc D [ev]). apply Permutation_app_head.
+  cbn [app]. rewrite <- !app_assoc. cbn [app]. apply Permutation_sym, Permutation_middle.
+Qed.
+
+Lemma fetching_app : forall fs fs', fetching (fs ++ fs') = fetching fs ++ fetching fs'.
+Proof. intros. unfold fetching. apply flat_map_app. Qed.
+
+Lemma fetching_set_nth : forall i fs seq ev,
+  nth_error fs i = Some (mkF seq ev Fetching) ->
+  exists F1 F2, fetching fs = F1 ++ ev :: F2 /\ fetching (set_nth i (mkF seq ev Added) fs) = F1 ++ F2.
+Proof.
+  intros i fs. revert i. induction fs as [|f fs IH]; intros i seq ev H; destruct i as [|i]; cbn in H; try discriminate.
+  - inversion H; subst. exists [], (fetching fs). split; reflexivity.
+  - destruct (IH i seq ev H) as [F1 [F2 [E1 E2]]].
+    exists (match f_stage f with Fetching => [f_ev f] | Added => [] end ++ F1), F2.
+    cbn [set_nth]. unfold fetching in *. cbn [flat_map]. rewrite E1, E2, <- !app_assoc. split; reflexivity.
+Qed.
+
+Lemma fetching_del_nth : forall i fs seq ev,
+  nth_error fs i = Some (mkF seq ev Added) -> fetching (del_nth i fs) = fetching fs.
+Proof.
+  intros i fs. revert i. induction fs as [|f fs IH]; intros i seq ev H; destruct i as [|i]; cbn in H; try discriminate.
+  - inversion H; subst. reflexivity.
+  - cbn [del_nth]. unfold fetching in *. cbn [flat_map]. now rewrite (IH i seq ev H).
+Qed.
+
+Lemma flush_step_perm : forall c (s : rstate) c' (s' : rstate) D O,
+  Permutation (flushed s) (D ++ fetching (fetchers s) ++ crit_ev c ++ O) ->
+  flush_step p c s = Some (c', s') ->
+  Permutation (flushed s') (D ++ fetching (fetchers s') ++ crit_ev c' ++ O).
+Proof.
+  intros c s c' s' D O H Hstep.
+  destruct c as [| | |ev|ev|ev seq|ev seq r]; cbn [flush_step] in Hstep; try discriminate.
+  - destruct (rp_fixed p && flock s); [discriminate|].
+    destruct (is_nil (fst (b_flush current_batch (bt s)))); inversion Hstep; subst; clear Hstep.
+    + exact H.
+    + cbn [flushed fetchers crit_ev] in *. apply perm_add. exact H.
+  - destruct (Nat.ltb (reserved s) (max_items p)); inversion Hstep; subst. exact H.
+  - inversion Hstep; subst. exact H.
+  - inversion Hstep; subst. exact H.
+  - inversion Hstep; subst. cbn [flushed fetchers crit_ev app] in *.
+    rewrite fetching_app. cbn [fetching flat_map f_stage f_ev app]. rewrite <- app_assoc. exact H.
+Qed.
+
+Lemma perm_swap_tail : forall {A} (fl X a b : list A), Permutation fl (X ++ a ++ b) -> Permutation fl (X ++ b ++ a).
+Proof. intros A fl X a b H. eapply Permutation_trans; [exact H|]. apply Permutation_app_head, Permutation_app_comm. Qed.
+
+Lemma step_perm : forall a (s : rstate) done,
+  PInvC (apc s) (tpc s) s done ->
+  PInvC (apc (step fetch p a s)) (tpc (step fetch p a s)) (step fetch p a s)
+        (done ++ match a with AComplete i => completing i s | _ => [] end).
+Proof.
+  unfold PInvC. intros a s done H. unfold step.
+  destruct a as [| | |i|i]; cbn [step_opt]; try rewrite app_nil_r.
+  - (* adder *)
+    unfold adder_step. destruct (apc s) eqn:Ea.
+    + destruct (script s) as [|[x|] sc]; cbn [apc tpc flushed fetchers crit_ev] in *; try rewrite Ea; exact H.
+    + cbn [set_apc apc tpc flushed fetchers]. destruct (b_full (rp_b p) (bt s)); exact H.
+    + destruct (flush_step p PFlush s) as [[c' s1]|] eqn:F; [|rewrite Ea; exact H].
+      destruct (flush_step_pcs p _ _ _ _ F) as [_ Et]. cbn [set_apc apc tpc flushed fetchers]. rewrite Et.
+      exact (flush_step_perm _ _ _ _ _ _ H F).
+    + destruct (flush_step p (PReserve ev) s) as [[c' s1]|] eqn:F; [|rewrite Ea; exact H].
+      destruct (flush_step_pcs p _ _ _ _ F) as [_ Et]. cbn [set_apc apc tpc flushed fetchers]. rewrite Et.
+      exact (flush_step_perm _ _ _ _ _ _ H F).
+    + destruct (flush_step p (PRead ev) s) as [[c' s1]|] eqn:F; [|rewrite Ea; exact H].
+      destruct (flush_step_pcs p _ _ _ _ F) as [_ Et]. cbn [set_apc apc tpc flushed fetchers]. rewrite Et.
+      exact (flush_step_perm _ _ _ _ _ _ H F).
+    + destruct (flush_step p (PInc ev seq) s) as [[c' s1]|] eqn:F; [|rewrite Ea; exact H].
+      destruct (flush_step_pcs p _ _ _ _ F) as [_ Et]. cbn [set_apc apc tpc flushed fetchers]. rewrite Et.
+      exact (flush_step_perm _ _ _ _ _ _ H F).
+    + destruct (flush_step p (PWrite ev seq r) s) as [[c' s1]|] eqn:F; [|rewrite Ea; exact H].
+      destruct (flush_step_pcs p _ _ _ _ F) as [_ Et]. cbn [set_apc apc tpc flushed fetchers]. rewrite Et.
+      exact (flush_step_perm _ _ _ _ _ _ H F).
+  - (* time-out goroutine: the same with the two flushers exchanged *)
+    unfold timeout_step. destruct (tpc s) eqn:Et.
+    + destruct (inflight s); [rewrite Et; exact H|]. cbn [set_tpc set_inflight apc tpc flushed fetchers crit_ev] in *. exact H.
+    + rewrite Et. exact H.
+    + destruct (flush_step p PFlush s) as [[c' s1]|] eqn:F; [|rewrite Et; exact H].
+      destruct (flush_step_pcs p _ _ _ _ F) as [Ea _]. cbn [set_tpc apc tpc flushed fetchers]. rewrite Ea.
+      rewrite app_assoc in H |- *. apply perm_swap_tail. apply perm_swap_tail in H. rewrite <- app_assoc in H |- *.
+      exact (flush_step_perm _ _ _ _ _ _ H F).
+    + destruct (flush_step p (PReserve ev) s) as [[c' s1]|] eqn:F; [|rewrite Et; exact H].
+      destruct (flush_step_pcs p _ _ _ _ F) as [Ea _]. cbn [set_tpc apc tpc flushed fetchers]. rewrite Ea.
+      rewrite app_assoc in H |- *. apply perm_swap_tail. apply perm_swap_tail in H. rewrite <- app_assoc in H |- *.
+      exact (flush_step_perm _ _ _ _ _ _ H F).
+    + destruct (flush_step p (PRead ev) s) as [[c' s1]|] eqn:F; [|rewrite Et; exact H].
+      destruct (flush_step_pcs p _ _ _ _ F) as [Ea _]. cbn [set_tpc apc tpc flushed fetchers]. rewrite Ea.
+      rewrite app_assoc in H |- *. apply perm_swap_tail. apply perm_swap_tail in H. rewrite <- app_assoc in H |- *.
+      exact (flush_step_perm _ _ _ _ _ _ H F).
+    + destruct (flush_step p (PInc ev seq) s) as [[c' s1]|] eqn:F; [|rewrite Et; exact H].
+      destruct (flush_step_pcs p _ _ _ _ F) as [Ea _]. cbn [set_tpc apc tpc flushed fetchers]. rewrite Ea.
+      rewrite app_assoc in H |- *. apply perm_swap_tail. apply perm_swap_tail in H. rewrite <- app_assoc in H |- *.
+      exact (flush_step_perm _ _ _ _ _ _ H F).
+    + destruct (flush_step p (PWrite ev seq r) s) as [[c' s1]|] eqn:F; [|rewrite Et; exact H].
+      destruct (flush_step_pcs p _ _ _ _ F) as [Ea _]. cbn [set_tpc apc tpc flushed fetchers]. rewrite Ea.
+      rewrite app_assoc in H |- *. apply perm_swap_tail. apply perm_swap_tail in H. rewrite <- app_assoc in H |- *.
+      exact (flush_step_perm _ _ _ _ _ _ H F).
+  - unfold timer_fire. destruct (armed (bt s)); exact H.
+  - (* a fetch completes *)
+    unfold complete_step, completing.
+    destruct (nth_error (fetchers s) i) as [[seq ev [|]]|] eqn:En; try (rewrite app_nil_r; exact H).
+    cbn [apc tpc flushed fetchers].
+    destruct (fetching_set_nth i _ seq ev En) as [F1 [F2 [E1 E2]]]. rewrite E2. rewrite E1 in H.
+    eapply Permutation_trans; [exact H|]. apply perm_move.
+  - unfold drain_step. destruct (nth_error (fetchers s) i) as [[seq ev [|]]|] eqn:En; try exact H.
+    destruct (drain_loop (S (length (items s))) (drained s) (items s) (reserved s) (out s)) as [[[d its] res] o].
+    cbn [apc tpc flushed fetchers]. rewrite (fetching_del_nth i _ seq ev En). exact H.
+Qed.
+
+Definition XInv (xs : rxstate T R) : Prop := PInvC (apc (rx xs)) (tpc (rx xs)) (rx xs) (x_done xs).
+
+Lemma x_run_inv : forall acts xs, XInv xs -> XInv (x_run fetchx p acts xs).
+Proof.
+  intros acts. induction acts as [|a acts IH]; intros xs H; cbn [x_run fold_left]; [assumption|].
+  apply IH. unfold XInv, x_step. cbn [rx x_done]. now apply step_perm.
+Qed.
+
+Lemma x_run_rx : forall acts xs, rx (x_run fetchx p acts xs) = run fetch p acts (rx xs).
+Proof.
+  intros acts. induction acts as [|a acts IH]; intros xs; cbn [x_run run fold_left]; [reflexivity|].
+  unfold x_run, run in IH. rewrite IH. reflexivity.
+Qed.
+
+Lemma Permutation_filter : forall {A} (f : A -> bool) (l l' : list A), Permutation l l' -> Permutation (filter f l) (filter f l').
+Proof.
+  intros A f l l' H. induction H; cbn [filter].
+  - constructor.
+  - destruct (f x); [now constructor|assumption].
+  - destruct (f x), (f y); try apply Permutation_refl; apply perm_swap.
+  - eapply Permutation_trans; eassumption.
+Qed.
+
+(* with fetch errors: output as before (the result of a failed batch is what FetchBatch returned with the error: its slot is filled,
+   later batches are not held up); every error reported belongs to a failed batch handed out; at quiescence every failed batch has
+   reported exactly once *)
+Theorem reorder_fetch_errors_proof : rp_fixed p = true -> forall (sc : list (aop T)) (acts : list action),
+  let xs := x_run fetchx p acts (x_init sc) in
+  let s := rx xs in
+  concat (flushed s) ++ batch (bt s) = added s /\
+  prefix (out s) (concat (map fetch (flushed s))) /\
+  (forall ev, In ev (x_errs fetchx xs) -> failed fetchx ev = true /\ In ev (flushed s)) /\
+  (quiescent s = true ->
+     out s = concat (map fetch (flushed s)) /\
+     Permutation (x_errs fetchx xs) (filter (failed fetchx) (flushed s))).
+Proof.
+  intros Hfixed sc acts xs s.
+  assert (Es : s = run fetch p acts (r_init sc)) by (unfold s, xs; now rewrite x_run_rx).
+  destruct (reorder_in_order_proof fetch p Hfixed sc acts) as [H1 [H2 H3]]. rewrite <- Es in H1, H2, H3.
+  assert (HX : XInv xs).
+  { apply x_run_inv. unfold XInv, PInvC. cbn. constructor. }
+  unfold XInv, PInvC in HX. fold s in HX.
+  split; [assumption|]. split; [assumption|]. split.
+  - intros ev Hin. unfold x_errs in Hin. apply filter_In in Hin. destruct Hin as [Hin Hf]. split; [assumption|].
+    eapply Permutation_in; [apply Permutation_sym; exact HX|]. apply in_or_app. now left.
+  - intros Hq. split; [now apply H3|].
+    unfold quiescent in Hq.
+    apply andb_prop in Hq. destruct Hq as [Hq Hf]. apply andb_prop in Hq. destruct Hq as [Hq Ht].
+    apply andb_prop in Hq. destruct Hq as [_ Ha].
+    destruct (apc s) eqn:Ea; try discriminate. destruct (tpc s) eqn:Et; try discriminate.
+    apply is_nil_true in Hf. rewrite Hf in HX. cbn in HX. rewrite app_nil_r in HX.
+    unfold x_errs. apply Permutation_sym. now apply Permutation_filter.
+Qed.
+
+End ErrorProofs.
